@@ -279,4 +279,25 @@ def runCheck (cfg : Cfg) (levels : List Level) : RunResult :=
     | .bad why => { verdict := "bad", step := 0, reason := why, contested := 0, relinks := 0, births := 0 }
     | _ => { verdict := "bad", step := 0, reason := "internal", contested := 0, relinks := 0, births := 0 }
 
+/-- is the optimum of this step not unique (or too large to enumerate)?  Driver statistic used to
+decide whether two runs must produce the same partition or only the same cost. -/
+def stepTied (cfg : Cfg) (st : State) (t : Int) (dsts : List Pos) : Bool :=
+  let cands := stepCands cfg st t dsts
+  let groups := stepGroups cfg st t dsts
+  (gSrcs cands groups).any (fun ss =>
+    if ss.isEmpty then false
+    else if (ss.map List.length).foldl (· * ·) 1 > 50000 then true
+    else countOptimal ss != 1)
+
+/-- number of steps with a tied optimum along a labelled movie (state evolves by `nextState`) -/
+def runTies (cfg : Cfg) (levels : List Level) : Nat :=
+  match levels with
+  | [] => 0
+  | l0 :: rest =>
+    let st0 := nextState initCfg { srcs := [], used := [] } l0.t l0.dsts (l0.labels.getD [])
+    (rest.foldl (fun (acc : State × Nat) l =>
+      let tied := stepTied cfg acc.1 l.t l.dsts
+      (nextState cfg acc.1 l.t l.dsts (l.labels.getD []), acc.2 + (if tied then 1 else 0)))
+      (st0, 0)).2
+
 end TrackpyV.Linker
